@@ -104,11 +104,14 @@ func (w *World) Options(dir string) *NoKV.Options {
 // Open opens (or reopens) the database in dir; a panic from Open is returned as error.
 func (w *World) Open(dir string) (err error) {
 	verifhook.Reset()
+	NoKV.VerifResetPools()
 	verifhook.Set("lsm.no-background-compaction", 1)
 	// Memtable arenas are 128 MiB by default and are cleared on allocation; the
 	// arena is chunked and grows on demand, so a 1 MiB arena only makes runs
 	// ~30x cheaper (knob 0 keeps the shipped size).
 	verifhook.Set("lsm.arena-size", int(w.C.CfgInt("arena_size", 1<<20)))
+	verifhook.Set("db.commit-queue-cap", int(w.C.CfgInt("commit_queue_cap", 0)))
+	verifhook.Set("txn.sort-entries", 1)
 	w.Sched = sim.NewSched(sim.NewRand(w.C.Seed, w.C.Run, 1), w.C.Sched, nil)
 	if !w.ModeC {
 		w.Sched.Ignore = func(site string) bool { return site != "lsm.flush.next" }
@@ -135,6 +138,13 @@ func (w *World) Open(dir string) (err error) {
 func (w *World) Close() error {
 	if w.DB == nil {
 		return nil
+	}
+	// Flush what is pending one memtable at a time before the workers are let go:
+	// otherwise the flush worker and the closing goroutine run concurrently and
+	// the order of their file operations is not ours.
+	if !w.ModeC {
+		for i := 0; i < 64 && w.FlushOne(); i++ {
+		}
 	}
 	w.Sched.Passthrough()
 	err := w.DB.Close()
@@ -163,7 +173,29 @@ func (w *World) FlushOne() bool {
 }
 
 // Maint interprets one maintenance step; false if the op is not a maintenance op.
-func (w *World) Maint(op sim.Op) bool {
+// A panic of the engine on the calling goroutine is reported as a violation
+// ("maintenance must succeed") instead of killing the worker.
+func (w *World) Maint(op sim.Op) (handled bool) {
+	defer func() {
+		if r := recover(); r != nil {
+			msg := fmt.Sprint(r)
+			kind := "other"
+			switch {
+			case strings.Contains(msg, "cs.tables"):
+				kind = "compact_state_tables"
+			case strings.Contains(msg, "keyRange"):
+				kind = "compact_state_range"
+			case strings.Contains(msg, "index out of range"), strings.Contains(msg, "nil pointer"):
+				kind = "runtime_error"
+			}
+			w.Res.Violate(w.step, "maintenance_panicked", map[string]string{"op": op.K, "panic": kind}, "%s panicked: %s", op.String(), msg)
+			handled = true
+		}
+	}()
+	return w.maint(op)
+}
+
+func (w *World) maint(op sim.Op) bool {
 	db := w.DB
 	switch op.K {
 	case "rotate":
